@@ -189,5 +189,5 @@ def run_shard(spec):
         run_graph(spec["case"], acc)
     else:
         for case in progbase.iter_cases(spec):
-            run_program(case, acc)
+            progbase.run_with_faults(PROPERTY, run_program, case, acc)
     return acc.result()
